@@ -39,6 +39,7 @@ type chanRef struct {
 	lenf   func() int
 	capf   func() int
 	closed func() bool // probe (receive capable channels); nil for send-only views
+	clock  bool        // channel of time.Time: fed by the mock clock
 }
 
 type selCase struct {
@@ -187,6 +188,7 @@ type Sched struct {
 	nTrans    int64
 	x         *Exec
 	noteSet   map[string]bool
+	rvS       *Thread // sender of the rendezvous in progress
 }
 
 var cur *Sched
@@ -263,6 +265,7 @@ func (s *Sched) fire(tr *trans, me *Thread) {
 		S.rv, R.rv = rvSend, rvRecv
 		R.handoff = S
 		s.active = R
+		s.rvS = S
 		if S != me {
 			S.wake <- wkGo
 		}
@@ -305,7 +308,16 @@ func (s *Sched) isClosed(c *chanRef) bool {
 // blocking reports whether the pending op really blocks (a select with default only polls).
 func blocking(op *Op) bool { return !(op.kind == opSelect && op.hasDefault) }
 
-func chanAcc(c *chanRef, write bool) []access { return []access{{c.id, write}} }
+// ClockObj is the pseudo object standing for the mock clock: reads of the time and receives from
+// timer channels read it, timer creation and Advance write it.
+const ClockObj uintptr = 2
+
+func chanAcc(c *chanRef, write bool) []access {
+	if c.clock {
+		return []access{{c.id, write}, {ClockObj, false}}
+	}
+	return []access{{c.id, write}}
+}
 
 // enabledTransitions computes all enabled transitions of the current global state.
 func (s *Sched) enabledTransitions() []*trans {
@@ -509,6 +521,7 @@ func (s *Sched) stateKey() uint64 {
 
 func (s *Sched) updateHash(tr *trans) {
 	h := mix(tr.t.hash, uint64(tr.arm+7)*31+strHash(tr.desc))
+	h = mix(h, s.objHash[0]) // epoch of the last globally conflicting transition
 	for _, a := range tr.acc {
 		oh := s.objHash[a.obj]
 		h = mix(h, oh)
@@ -771,6 +784,15 @@ func Access(obj any, write bool, label string) {
 		return
 	}
 	s.yield(&Op{kind: opAccess, acc: []access{{objID(obj), write}}, label: label})
+}
+
+// ClockOp is a visible read or write of the mock clock.
+func ClockOp(write bool, label string) {
+	s := cur
+	if s == nil {
+		return
+	}
+	s.yield(&Op{kind: opAccess, acc: []access{{ClockObj, write}}, label: "clock." + label})
 }
 
 // SyncOp is used by the sync shims.
